@@ -338,9 +338,16 @@ async fn finalize_artifact(
     stored_bytes: u64,
     bytes_total: u64,
 ) -> Option<StreamArtifactRef> {
-    let (Some(_file), Some(tmp_path), Some(hasher)) = (file, tmp_path, hasher) else {
+    let (Some(mut file), Some(tmp_path), Some(hasher)) = (file, tmp_path, hasher) else {
         return None;
     };
+    // tokio's File returns from write() once the buffer is queued: the blob must hold the hashed
+    // bytes before it is published under their hash.
+    if file.flush().await.is_err() {
+        let _ = tokio::fs::remove_file(&tmp_path).await;
+        return None;
+    }
+    drop(file);
 
     let digest = hasher.finalize();
     let id = hex::encode(digest);
